@@ -278,7 +278,9 @@ def gen_shuffled_big(seed, n):
             small += [own] * rng.randint(1, 4)
         rows = big + small
         rng.shuffle(rows)
-        hs.append({"cfg": {"crit": "diameter", "tol": None, "thr": 0.9, "bf": rng.choice([4, 50])}, "nf": nf,
+        # (at 0.999 a few foreign rows are not absorbed by 260+ equal ones: the small clusters stay apart)
+        hs.append({"cfg": {"crit": "diameter", "tol": None, "thr": 0.999 if k % 3 else 0.9, "bf": rng.choice([4, 50])},
+                   "nf": nf,
                    "ops": [{"op": "fit", "rows": rows, "labels": None, "form": "unpacked-array", "bad_at": None},
                            {"op": "recluster", "iters": 1, "extra": 0.0, "shuffle": True, "seed": k,
                             "stop_early": False}]})
